@@ -24,8 +24,8 @@ def plan(prop, tier, seed, t0):
     else:
         traces = [
             dict(name="exh", engine="f2", args=["--exhaustive", "3,4", "--exhaustive", "4,3"], **T),
-            dict(name="rand", engine="f2", args=["--random", 2000, "--maxdim", 24], **T),
-            dict(name="rand8", engine="f2", args=["--random", 3000, "--maxdim", 8], **T),
+            dict(name="rand", engine="f2", args=["--random", 3000, "--maxdim", 24], **T),
+            dict(name="rand8", engine="f2", args=["--random", 6000, "--maxdim", 8], **T),
         ]
     assume = [a for a in COMMON_ASSUME if "absg.rs" not in a and "ZXSem" not in a] + [
         "the recording proxy (harness/src/eng_f2.rs, struct Rec) logs exactly the row operations gauss_x hands to it",
